@@ -197,6 +197,13 @@ func vRunProc(t *testing.T, kind string) {
 				keyTok = strings.Join(keyNames, ",")
 			}
 			out.Linef("case %d kind=%s", c, kind)
+			if c == 0 {
+				// the real default configuration against the regenerated struct literal (Gen/C17Config.lean)
+				d := createDefaultConfig().(*Config)
+				out.Linef("op defaults")
+				out.Linef("obs defaults SendBatchSize=%d SendBatchMaxSize=%d Timeout=%d MetadataCardinalityLimit=%d", d.SendBatchSize,
+					d.SendBatchMaxSize, int64(d.Timeout), d.MetadataCardinalityLimit)
+			}
 			out.Linef("op cfgraw sbs=%d max=%d timeout=%d keys=%s limit=%d", sbs, max, timeoutUs, keyTok, cfg.MetadataCardinalityLimit)
 			verr := cfg.Validate()
 			out.Linef("obs valid=%d", vB(verr == nil))
@@ -273,11 +280,14 @@ func vRunProc(t *testing.T, kind string) {
 				// client metadata: mixed-case header names, absent / empty / single / multi values (also reordered and
 				// near-colliding ones: [v2,v1] vs [v1,v2], v12 vs [v1,v2], v1 vs v10)
 				md := map[string][]string{}
-				var parts []string
+				grp := ""
+				var raw []string // the metadata exactly as the caller sends it: the MODEL computes the group from this
 				for _, k := range sink.keys {
 					var vs []string
-					switch rnd.IntN(12) {
+					switch rnd.IntN(13) {
 					case 0: // absent
+					case 12: // present with an empty value list (Get gives nil: same group as absent)
+						vs = []string{}
 					case 1:
 						vs = []string{""}
 					case 2:
@@ -307,20 +317,28 @@ func vRunProc(t *testing.T, kind string) {
 							name = strings.ToUpper(k)
 						}
 						md[name] = vs
+						raw = append(raw, name+":"+sink.vals(vs))
 					}
-					parts = append(parts, sink.vals(vs))
-				}
-				key := "_"
-				if nkeys > 0 {
-					key = strings.Join(parts, "/")
+					grp += "/" + sink.vals(vs) // only for the non-triviality statistic
 				}
 				// everything else a caller's client.Info can carry: other headers, credentials, peer address
 				info := client.Info{}
 				if rnd.IntN(2) == 0 {
 					md["x-other"] = []string{fmt.Sprintf("o%d", s)}
+					raw = append(raw, "x-other:"+sink.vals(md["x-other"]))
 				}
 				if rnd.IntN(3) == 0 {
 					md["Authorization"] = []string{"secret"}
+					raw = append(raw, "Authorization:"+sink.vals(md["Authorization"]))
+				}
+				if len(sink.keys) > 0 && rnd.IntN(6) == 0 {
+					// a header whose name merely CONTAINS / extends a configured key: must not be taken for it
+					md[sink.keys[0]+"-2"] = []string{"v1"}
+					raw = append(raw, sink.keys[0]+"-2:"+sink.vals(md[sink.keys[0]+"-2"]))
+				}
+				key := "md=-"
+				if len(raw) > 0 {
+					key = "md=" + strings.Join(raw, ",")
 				}
 				if rnd.IntN(2) == 0 {
 					info.Auth = vAuth{who: fmt.Sprintf("caller%d", s)}
@@ -337,15 +355,15 @@ func vRunProc(t *testing.T, kind string) {
 				var err error
 				if kind == "logs" {
 					ld := g.Logs()
-					out.Linef("op %s k=%s | %s", opName, key, vDumpLogs(ld))
+					out.Linef("op %s %s | %s", opName, key, vDumpLogs(ld))
 					err = consumeLogs(ctx, ld)
 				} else if kind == "traces" {
 					td := g.Traces()
-					out.Linef("op %s k=%s | %s", opName, key, vDumpTraces(td))
+					out.Linef("op %s %s | %s", opName, key, vDumpTraces(td))
 					err = consumeTraces(ctx, td)
 				} else {
 					m := g.Metrics()
-					out.Linef("op %s k=%s | %s", opName, key, vDumpMetrics(m))
+					out.Linef("op %s %s | %s", opName, key, vDumpMetrics(m))
 					err = consumeMetrics(ctx, m)
 				}
 				if !burst {
@@ -357,7 +375,7 @@ func vRunProc(t *testing.T, kind string) {
 					out.Linef("stat refused 1")
 				} else {
 					out.Linef("obs ok")
-					groups[key] = true
+					groups[grp] = true
 				}
 			}
 			out.Linef("op shutdown")
